@@ -333,6 +333,7 @@ func checkCmd(argv []string) int {
 		fmt.Printf("  failed obligation: %s\n  %s\n  solver: %s (%s)\n", o.Name, o.Desc, o.Result.Status, o.Result.Backend)
 	}
 	// obligations not claimed: known findings and unproved-unclaimed
+	var knownReplayed []map[string]interface{}
 	othersNow := map[string]bool{}
 	for _, n := range exp.Others {
 		othersNow[n] = true
@@ -346,6 +347,11 @@ func checkCmd(argv []string) int {
 		}
 		if kf := knownFor(r.Name); kf != nil {
 			knownLines = append(knownLines, fmt.Sprintf("KNOWN-FINDING: property=%s %s [%s]", *prop, kf.WhatFails, r.Name))
+			if *tier == "thorough" {
+				// thorough tier: every recorded finding is replayed on the real code again
+				rp := writeReplay(*repo, *verif, filepath.Join(*verif, "replays", *prop, "known"), *prop, byName[r.Name], frOf[r.Name], prelude, replays)
+				knownReplayed = append(knownReplayed, map[string]interface{}{"obligation": r.Name, "finding": kf.ID, "reproduced_on_real_code": rp.Reproduced, "replay": rp.Path})
+			}
 			continue
 		}
 		if exp.Others != nil && !othersNow[r.Name] {
@@ -456,6 +462,7 @@ func checkCmd(argv []string) int {
 		"vcgen_s":                  round1(genS),
 		"solve_s":                  round1(solveS),
 		"known_findings":           knownLines,
+		"known_findings_replayed": knownReplayed,
 		"unclaimed":                unclaimed,
 		"undecided":                append(undecided, missing...),
 		"vacuity_guards":           "per function: requires satisfiable, a return reachable, canary `ensures false` refuted (an `unsat` answer to any of them is reported as a violation)",
